@@ -171,6 +171,8 @@ class ExcFlow:
                     continue
                 for h in exprs_of(st):
                     for n in walk_no_nested(h):
+                        if isinstance(n, ast.Raise) and getattr(n, "_implicit_raise", False):
+                            continue  # written out by the source model for what a subscript / call did implicitly (octacheck.dispatch)
                         if isinstance(n, ast.Raise):
                             for nm in self._raised_classes(fi, n, hctx):
                                 if not self.caught(nm, stack):
